@@ -52,6 +52,9 @@ var c07SettleMuts = []string{
 	"settle:actor-other", "sig:wrong-key",
 }
 
+// (a sequence, not drawn from the list above: see the step craft-sub-close-retry)
+const mutDiscardedFinal = "settle:credit-of-discarded-final"
+
 func genC07(r *kernel.Rand) *kernel.Scenario {
 	sc := &kernel.Scenario{Config: map[string]int64{}}
 	c := sc.Config
@@ -81,6 +84,10 @@ func genC07(r *kernel.Rand) *kernel.Scenario {
 		case k == 4 && nsub < 3 && app == 0:
 			sc.Steps = append(sc.Steps, kernel.St("craft-sub-open", "mut", c07FundingMuts[r.Intn(len(c07FundingMuts))], "a", r.Range(1, 60), "b", r.Range(1, 60), "r", int64(r.Uint64()>>2)))
 			nsub++
+		case k == 5 && nsub > 0 && r.Bool(0.3):
+			// a final update whose acceptance cannot be sent (connection fault), a
+			// second, different final update, then a settlement crediting the first
+			sc.Steps = append(sc.Steps, kernel.St("craft-sub-close-retry", "sub", r.Intn(nsub), "amt", amt, "amt2", amt+3+r.Intn(5), "r", int64(r.Uint64()>>2)))
 		case k == 5 && nsub > 0:
 			sc.Steps = append(sc.Steps, kernel.St("craft-sub-close", "mut", c07SettleMuts[r.Intn(len(c07SettleMuts))], "sub", r.Intn(nsub), "amt", amt, "r", int64(r.Uint64()>>2)))
 		default:
@@ -103,7 +110,8 @@ type craft struct {
 	sigOK   bool           // signature is A's over exactly msg.State
 	sub     *channel.State // funded/settled channel's state as H holds it
 	subID   channel.ID
-	accSeen bool // H sent ChannelUpdateAcc for (ch, version)
+	alt     *channel.State // settle:credit-of-discarded-final: the final state whose update was discarded
+	accSeen bool           // H sent ChannelUpdateAcc for (ch, version)
 	pending bool // a multi-message craft is still under way
 }
 
@@ -165,6 +173,62 @@ func execC07(t *testing.T, sc *kernel.Scenario, trace bool) *kernel.Result {
 				crafted++
 				st0.arm(&craft{class: "funding", mut: st.Str("mut"), ch: p.ids[0], r: kernel.NewRand(kernel.Derive(uint64(st.Int("r")), "craft"))})
 				p.subOpen(i, st)
+				if !st0.settle(i) {
+					goto done
+				}
+			case "craft-sub-close-retry":
+				k := int(st.Int("sub"))
+				if k >= len(p.subs) || p.subs[k].closed || p.subs[k].chans[0].Idx() != 0 {
+					continue
+				}
+				si := &p.subs[k]
+				// 1. a final update that H accepts but whose acceptance cannot be sent
+				var first *channel.State
+				failed := false
+				prevTap := p.w.Bus.Tap
+				p.w.Bus.Tap = func(from, to string, e *wire.Envelope, fate string) {
+					if m, ok := e.Msg.(*client.ChannelUpdateMsg); ok && from == "A" && m.ID() == si.id && first == nil {
+						first = m.State.Clone()
+					}
+					if prevTap != nil {
+						prevTap(from, to, e, fate)
+					}
+				}
+				p.w.Bus.FailSend = func(from, to string, e *wire.Envelope) bool {
+					acc, ok := e.Msg.(*client.ChannelUpdateAccMsg)
+					if ok && from == "B" && acc.ChannelID == si.id && !failed {
+						failed = true
+						return true
+					}
+					return false
+				}
+				o1 := p.pay(i, si.chans[0], 0, st.Int("amt"), time.Second, true)
+				p.w.Bus.FailSend, p.w.Bus.Tap = nil, prevTap
+				if o1.class == "ok" || !failed || first == nil {
+					continue // H's policy refused, or nothing to fail
+				}
+				time.Sleep(50 * time.Millisecond)
+				// 2. a different final update, accepted and delivered
+				o2 := p.pay(i, si.chans[0], 0, st.Int("amt2"), 3*time.Second, true)
+				if o2.class != "ok" {
+					continue
+				}
+				crafted++
+				// 3. the settlement update credits the balances of the discarded final state
+				st0.arm(&craft{class: "settlement", mut: mutDiscardedFinal, ch: p.ids[0], subID: si.id, alt: first, r: kernel.NewRand(kernel.Derive(uint64(st.Int("r")), "craft"))})
+				errs := make(chan error, 2)
+				for _, side := range []int{0, 1} {
+					side := side
+					go func() {
+						ctx, cancel := context.WithTimeout(context.Background(), 3*time.Second+s.Delay(fmt.Sprintf("ctx:subsettle:%d:%d", i, side), 0, time.Millisecond))
+						defer cancel()
+						errs <- si.chans[side].Settle(ctx, side != 0)
+					}()
+					time.Sleep(s.Delay(fmt.Sprintf("driver:subsettle-gap:%d", i), 0, 300*time.Microsecond))
+				}
+				if e1, e2 := <-errs, <-errs; e1 == nil && e2 == nil {
+					si.closed = true
+				}
 				if !st0.settle(i) {
 					goto done
 				}
@@ -490,6 +554,19 @@ func (c *c07state) mutate(cr *craft, m *client.ChannelUpdateMsg, before *channel
 				s.Balances[a][hIdx].Sub(s.Balances[a][hIdx], one)
 				s.Balances[a][aIdx].Add(s.Balances[a][aIdx], one)
 				break
+			}
+		}
+	case mutDiscardedFinal:
+		if cr.alt == nil || len(cr.alt.Balances) != len(s.Balances) {
+			cr.mut = "none"
+			resign = false
+			break
+		}
+		for a := range s.Balances {
+			for j := range s.Balances[a] {
+				if j < len(cr.alt.Balances[a]) && j < len(before.Balances[a]) {
+					s.Balances[a][j] = new(big.Int).Add(before.Balances[a][j], cr.alt.Balances[a][j])
+				}
 			}
 		}
 	case "settle:keep-suballoc":
